@@ -293,24 +293,12 @@ int main(int argc, char **argv) {
     if (k < 12) {
       std::string fmt = fmts[r.below(5)];
       Rng sub(r.next());
-      if (fmt == "dlph") {
-        // the DLPOLY writer keeps its frame counter in a function-local static: one trajectory per process
-        fflush(stdout);
-        pid_t pid = fork();
-        if (pid == 0) { traj_case(sub, fmt); fflush(stdout); _exit(0); }
-        int st; waitpid(pid, &st, 0);
-        if (!(WIFEXITED(st) && WEXITSTATUS(st) == 0)) printf("C08 crash dlph\n");
-      } else traj_case(sub, fmt);
+      traj_case(sub, fmt);     // all formats in one process: every DL_POLY trajectory after the first one needs its own header too
     }
     else if (k < 14) {
       std::string fmt = fmts[r.below(5)];
       Rng sub(r.next());
-      if (fmt == "dlph") {
-        fflush(stdout);
-        pid_t pid = fork();
-        if (pid == 0) { mismatch_case(sub, fmt); fflush(stdout); _exit(0); }
-        int st; waitpid(pid, &st, 0);
-      } else mismatch_case(sub, fmt);
+      mismatch_case(sub, fmt);
     }
     else if (k < 16) table_case(r);
     else if (k < 18) matrix_case(r);
